@@ -107,7 +107,7 @@ Inductive item : Type :=
 | ITypeId (p : N) (tname : N) (id : N)             (* Codegen.DefineType *)
 | IMain (anon : nat) (ntypes : nat)                (* counters when main's body starts *)
 | ICall (p f : N) (inst : nat)                     (* block label "f#inst": ast/ssagen.go Func.SSA, NumInstances *)
-| IConst (name : N) (wire : nat)                   (* Program.DefineConstants *)
+| IConst (name : N) (wire : nat) (bits : nat)      (* Program.DefineConstants: first wire and width *)
 | ITypeStr (s : option text)                       (* Type.String *)
 | IPad (n : nat)                                   (* maxOperandLength *)
 | IErr (code : N) (arg : N).
@@ -238,14 +238,23 @@ Fixpoint pkg_init (fuel : nat) (rk : msite -> N -> list N -> list N) (pkgs : lis
         end
   end.
 
-(* ssa/program.go DefineConstants: collect the map values, sort by name, give
-   each constant the next free wires *)
-Fixpoint assign_wires (w : nat) (cs : list (N * nat)) : listing :=
+(* ssa/program.go DefineConstants: collect the map VALUES in map order, sort them
+   by NAME only (sort.Slice, less = strings.Compare(name_i, name_j) == -1), then
+   wire each constant unless one of that name is already wired
+   (walloc.Allocated looks at the value's name, not at its type):
+       for _, c := range consts { if prog.walloc.Allocated(c) { continue } ... }
+   The comparison is a total order on the entries only if the names are pairwise
+   different (Generator.constants is keyed by name: add_constant above).  Entries
+   of equal name tie; sort_by keeps tied entries in their input order, so with
+   ties the entry that is wired (its width!) depends on the map order. *)
+Fixpoint assign_wires (w : nat) (alloc : list N) (cs : list (N * nat)) : listing :=
   match cs with
   | [] => []
-  | (n, bits) :: t => IConst n w :: assign_wires (w + bits) t
+  | (n, bits) :: t =>
+      if memN n alloc then assign_wires w alloc t
+      else IConst n w bits :: assign_wires (w + bits) (n :: alloc) t
   end.
-Definition define_constants (l : list (N * nat)) : listing := assign_wires 0 (sort_by fst l).
+Definition define_constants (l : list (N * nat)) : listing := assign_wires 0 [] (sort_by fst l).
 
 (* the package-level map literals, regenerated from the source:
    MapSites.table_types_Types (types.Types) and MapSites.table_compiler_ssa_operands (ssa.operands) *)
